@@ -1,45 +1,77 @@
 // C10: the sparse Merkle state trie is a content-addressed, history-independent,
-// persistent key-value map. Bounded exhaustive exploration of the real
-// pkg/trie code against a plain-map model and an independent reference root.
+// persistent key-value map.
+//
+// Mode bfs: explicit-state search over *store states* of the real pkg/trie.
+// A state is (content, root, exact bytes of every stored node reachable from the
+// root); a transition is one sorted batch applied by a fresh Trie instance opened
+// at the root (Update + Commit), the way the node does once per block. States are
+// deduplicated by the digest of the reachable bytes, which is everything a fresh
+// instance can read, so equal digests have equal futures. The search runs to a
+// fixpoint (or a stated depth cap). Oracles on every transition: Get of every
+// key = map model (read through another fresh instance), root = independent
+// reference root of the content, previous root still readable with its content.
+//
+// Mode live: bounded sequences on ONE long-lived instance with commit after every
+// batch and resets of Root to earlier committed roots (reorg), same oracles plus
+// every committed root re-read from a fresh instance at the end.
 package main
 
 import (
 	"bytes"
+	"crypto/sha256"
 	"encoding/json"
 	"fmt"
+	"runtime"
+	"sort"
+	"sync"
 	"time"
 
 	"github.com/aergoio/aergo-lib/db"
 	"github.com/aergoio/aergo/v2/internal/common"
 	"github.com/aergoio/aergo/v2/pkg/trie"
+	"github.com/aergoio/aergo/v2/types/dbkey"
 	tk "github.com/aergoio/aergo/v2/verif_h/triekit"
 	"github.com/aergoio/aergo/v2/verif_h/xplor"
 )
 
 type replay struct {
-	Mode  string    `json:"mode"` // fresh | live
-	N     int       `json:"n"`
-	State int       `json:"state,omitempty"` // fresh: content id of the source state
-	Batch tk.Batch  `json:"batch,omitempty"`
+	Mode  string     `json:"mode"` // bfs | live
+	Sel   []int      `json:"sel"`  // universe indexes of the key set
+	Path  []tk.Batch `json:"path,omitempty"`
 	Steps []liveStep `json:"steps,omitempty"`
 }
 
 type liveStep struct {
 	Batch   tk.Batch `json:"batch,omitempty"`
 	Commit  bool     `json:"commit"`
-	SetRoot int      `json:"setroot,omitempty"` // 1-based index of an earlier committed point; 0 = none
+	SetRoot int      `json:"setroot,omitempty"` // 1-based index of an earlier committed point
 }
 
-type params struct {
-	freshN, freshK       int
-	liveN, liveK, liveD  int
+type bfsCfg struct {
+	sel      []int
+	maxk     int
+	maxDepth int // 0 = until fixpoint
 }
 
-func tierParams(tier string) params {
+type liveCfg struct {
+	sel  []int
+	maxk int
+	d    int
+}
+
+func tierCfg(tier string) ([]bfsCfg, liveCfg) {
 	if tier == "thorough" {
-		return params{freshN: 7, freshK: 4, liveN: 5, liveK: 2, liveD: 3}
+		return []bfsCfg{
+				{sel: []int{tk.Z, tk.L01, tk.L02, tk.L08, tk.L10, tk.L20, tk.L80, tk.B0}, maxk: 3},
+				{sel: []int{tk.Z, tk.L01, tk.L10, tk.B8, tk.B4, tk.B3, tk.B1, tk.B0}, maxk: 3},
+			},
+			liveCfg{sel: []int{tk.Z, tk.L01, tk.L08, tk.L10, tk.B0}, maxk: 2, d: 3}
 	}
-	return params{freshN: 6, freshK: 3, liveN: 4, liveK: 2, liveD: 2}
+	return []bfsCfg{
+			{sel: []int{tk.Z, tk.L01, tk.L02, tk.L08, tk.L10, tk.L20, tk.L80}, maxk: 2},
+			{sel: []int{tk.Z, tk.L01, tk.L10, tk.B8, tk.B3, tk.B0}, maxk: 3},
+		},
+		liveCfg{sel: []int{tk.Z, tk.L01, tk.L10, tk.B0}, maxk: 2, d: 2}
 }
 
 // f1 is the signature predicate of known finding F1: the batch deletes a key
@@ -52,18 +84,13 @@ func f1(c tk.Content, b tk.Batch) bool {
 		}
 		d := tk.Key(o.K)
 		p := 0 // depth of d's shortcut = 1 + longest common prefix with any other present key
-		only := true
 		for i, v := range c {
 			if v == 0 || i == o.K {
 				continue
 			}
-			only = false
 			if l := lcp(d, tk.Key(i)) + 1; l > p {
 				p = l
 			}
-		}
-		if only {
-			p = 0
 		}
 		lo, hi := false, false
 		for _, q := range b {
@@ -96,60 +123,248 @@ func lcp(a, b []byte) int {
 	return 256
 }
 
-// stepFresh executes one transition from canonical state c with batch b on a
-// store that holds exactly the canonical trie of c. Returns "" if all oracles hold.
-func stepFresh(store string, c tk.Content, b tk.Batch, canon *canonical) string {
-	var st db.DB
-	var root0 []byte
-	if canon != nil && canon.snap != nil {
-		st = canon.st
-		tk.Reset(store, canon.snap)
-		root0 = canon.root
-	} else {
-		st = tk.Open(store)
-		t0, err := tk.Build(st, c)
-		if err != nil {
-			return "build: " + err.Error()
+// reach collects the stored bytes of every node batch reachable from root, using
+// an independent parser of the stored batch format (4-byte bitmap, 33-byte slots;
+// bit 31 = shortcut batch; slots 15..30 are the children that are roots of other batches).
+func reach(m map[string][]byte, root []byte, out map[string][]byte) error {
+	if len(root) == 0 {
+		return nil
+	}
+	k := string(dbkey.Trie(root[:32]))
+	if _, done := out[k]; done {
+		return nil
+	}
+	v, ok := m[k]
+	if !ok || len(v) < 4 {
+		return fmt.Errorf("node %x missing from the store", root[:32])
+	}
+	out[k] = v
+	if v[3]&1 != 0 { // bit 31: shortcut batch
+		return nil
+	}
+	j := 0
+	for i := 1; i <= 30; i++ {
+		if v[(i-1)/8]&(1<<uint(7-(i-1)%8)) == 0 {
+			continue
 		}
-		root0 = append([]byte{}, t0.Root...)
-		if !bytes.Equal(root0, tk.RefRoot(c)) {
-			return fmt.Sprintf("one-batch build of %v: root %x != reference %x", c, root0, tk.RefRoot(c))
+		if 4+33*(j+1) > len(v) {
+			return fmt.Errorf("node %x truncated", root[:32])
 		}
-		if canon != nil {
-			canon.st, canon.root, canon.snap = st, root0, db.VerifSnapshot(store)
+		slot := v[4+33*j : 4+33*(j+1)]
+		j++
+		// children of the bottom row are roots of other batches unless they are shortcut leaves
+		// (flag 1) or the key/value copies under a shortcut (flag 2)
+		if i >= 15 && slot[32] == 0 {
+			if err := reach(m, slot[:32], out); err != nil {
+				return err
+			}
 		}
 	}
-	// the node works on an instance opened at the root, like a StateDB after restart
-	t := trie.NewTrie(root0, common.Hasher, st)
-	keys, vals := b.KV()
-	if _, err := t.Update(keys, vals); err != nil {
-		return "update: " + err.Error()
-	}
-	if err := t.Commit(); err != nil {
-		return "commit: " + err.Error()
-	}
-	want := c.Apply(b)
-	if ref := tk.RefRoot(want); !bytes.Equal(t.Root, ref) {
-		return fmt.Sprintf("root %x != reference root %x of content %v (history dependence)", t.Root, ref, want)
-	}
-	// fresh instance on the stored data
-	t2 := trie.NewTrie(append([]byte{}, t.Root...), common.Hasher, st)
-	if err := tk.CheckReads(t2, want); err != nil {
-		return "read from fresh instance: " + err.Error()
-	}
-	// the previously committed root keeps its own content
-	t3 := trie.NewTrie(root0, common.Hasher, st)
-	if err := tk.CheckReads(t3, c); err != nil {
-		return "read at previous root: " + err.Error()
-	}
-	return ""
+	return nil
 }
 
-// canonical caches the store content holding exactly the one-batch trie of a content.
-type canonical struct {
-	st   db.DB
-	root []byte
-	snap map[string][]byte
+func digest(c tk.Content, root []byte, nodes map[string][]byte) string {
+	h := sha256.New()
+	fmt.Fprint(h, c.ID(), "|")
+	h.Write(root)
+	keys := make([]string, 0, len(nodes))
+	for k := range nodes {
+		keys = append(keys, k)
+	}
+	sort.Strings(keys)
+	for _, k := range keys {
+		h.Write([]byte(k))
+		h.Write(nodes[k])
+	}
+	return string(h.Sum(nil))
+}
+
+type state struct {
+	c     tk.Content
+	root  []byte
+	nodes map[string][]byte
+	path  []tk.Batch
+}
+
+type stepResult struct {
+	msg   string // violation observation, "" if fine
+	isF1  bool
+	next  *state
+	dig   string
+	stale bool // an existing stored key was rewritten with different bytes
+}
+
+// step executes one transition from s with batch b on store handle st.
+func step(st db.DB, s *state, b tk.Batch) (r stepResult) {
+	db.VerifHandleRestore(st, s.nodes)
+	r.isF1 = f1(s.c, b)
+	t := trie.NewTrie(append([]byte{}, s.root...), common.Hasher, st)
+	keys, vals := b.KV()
+	if _, err := t.Update(keys, vals); err != nil {
+		r.msg = "update: " + err.Error()
+		return
+	}
+	if err := t.Commit(); err != nil {
+		r.msg = "commit: " + err.Error()
+		return
+	}
+	want := s.c.Apply(b)
+	newRoot := append([]byte{}, t.Root...)
+	if ref := tk.RefRoot(want); !bytes.Equal(newRoot, ref) {
+		r.msg = fmt.Sprintf("root %x != reference root %x of content %v (history dependence)", newRoot, ref, want)
+		return
+	}
+	// fresh instance on the stored data
+	t2 := trie.NewTrie(append([]byte{}, newRoot...), common.Hasher, st)
+	if err := tk.CheckReads(t2, want); err != nil {
+		r.msg = "read from fresh instance at the new root: " + err.Error()
+		return
+	}
+	// node batches are written under their hash and never overwritten with other bytes;
+	// only if an existing key changed can the previous root read differently
+	post := db.VerifHandleSnapshot(st)
+	for k, v := range s.nodes {
+		if pv, ok := post[k]; !ok || !bytes.Equal(pv, v) {
+			r.stale = true
+		}
+	}
+	if r.stale {
+		t3 := trie.NewTrie(append([]byte{}, s.root...), common.Hasher, st)
+		if err := tk.CheckReads(t3, s.c); err != nil {
+			r.msg = "read at the previously committed root: " + err.Error()
+			return
+		}
+	}
+	nodes := map[string][]byte{}
+	if err := reach(post, newRoot, nodes); err != nil {
+		r.msg = "stored trie incomplete: " + err.Error()
+		return
+	}
+	r.next = &state{c: want, root: newRoot, nodes: nodes}
+	r.dig = digest(want, newRoot, nodes)
+	return
+}
+
+func runBFS(ctx *xplor.Ctx, cfg bfsCfg, tag string) {
+	tk.Use(cfg.sel...)
+	n := len(cfg.sel)
+	batches := tk.Batches(n, cfg.maxk)
+	nw := runtime.GOMAXPROCS(0)
+	handles := make([]db.DB, nw)
+	for i := range handles {
+		handles[i] = db.NewDB(db.VerifImpl, fmt.Sprintf("c10-%s-%d", tag, i))
+	}
+	init := &state{c: make(tk.Content, n), nodes: map[string][]byte{}}
+	seen := map[string]bool{digest(init.c, nil, init.nodes): true}
+	contents := map[int]int{0: 1} // content id -> number of distinct store states
+	frontier := []*state{init}
+	depth := 0
+	var mu sync.Mutex
+	nF1 := 0
+	for len(frontier) > 0 {
+		if cfg.maxDepth > 0 && depth >= cfg.maxDepth {
+			ctx.Incomplete(fmt.Sprintf("bfs %s: depth cap %d reached with %d unexplored states", tag, cfg.maxDepth, len(frontier)))
+			break
+		}
+		var next []*state
+		jobs := make(chan *state, len(frontier))
+		for _, s := range frontier {
+			jobs <- s
+		}
+		close(jobs)
+		var wg sync.WaitGroup
+		for w := 0; w < nw; w++ {
+			wg.Add(1)
+			go func(st db.DB) {
+				defer wg.Done()
+				for s := range jobs {
+					if ctx.Expired() {
+						continue
+					}
+					for _, b := range batches {
+						r := step(st, s, b)
+						ctx.Eval(1)
+						ctx.Trans(1)
+						if r.stale {
+							ctx.Count("transitions_rewriting_a_stored_node", 1)
+						}
+						path := append(append([]tk.Batch{}, s.path...), b)
+						if r.msg != "" {
+							sig := ""
+							if r.isF1 {
+								sig = "F1"
+							}
+							mu.Lock()
+							report := sig == "" || nF1 < 3
+							if sig != "" {
+								nF1++
+							}
+							mu.Unlock()
+							if report {
+								ctx.Violation(sig, fmt.Sprintf("keys %v: from %v (after %d batches) batch %v: %s", tk.Names, s.c, len(s.path), b, r.msg),
+									replay{Mode: "bfs", Sel: cfg.sel, Path: path})
+							} else {
+								ctx.Count("f1_observed_more", 1)
+							}
+							continue // a failed transition is not extended
+						}
+						if r.next.c.ID() != s.c.ID() {
+							ctx.Distinct(xplor.Hash(tag, s.c.ID(), len(s.nodes), fmt.Sprint(b)))
+						}
+						mu.Lock()
+						if !seen[r.dig] {
+							seen[r.dig] = true
+							contents[r.next.c.ID()]++
+							r.next.path = path
+							next = append(next, r.next)
+						}
+						mu.Unlock()
+					}
+				}
+			}(handles[w])
+		}
+		wg.Wait()
+		if ctx.Expired() {
+			ctx.Incomplete("bfs " + tag + ": internal deadline")
+			break
+		}
+		frontier = next
+		depth++
+	}
+	ctx.State(int64(len(seen)))
+	ctx.Max("max_bfs_depth_"+tag, int64(depth))
+	multi := 0
+	for _, k := range contents {
+		if k > 1 {
+			multi++
+		}
+	}
+	ctx.Count("contents_reached_"+tag, int64(len(contents)))
+	ctx.Count("contents_with_several_store_states_"+tag, int64(multi))
+	ctx.Sample(map[string]interface{}{"mode": "bfs", "keys": append([]string{}, tk.Names...), "batches_per_state": len(batches),
+		"example_transition": fmt.Sprintf("from %v apply %v", tk.ContentFromID(len(contents)/2, n), batches[len(batches)-1])})
+	for i := range handles {
+		db.VerifDrop(fmt.Sprintf("c10-%s-%d", tag, i))
+	}
+}
+
+func replayBFS(ctx *xplor.Ctx, r replay) {
+	tk.Use(r.Sel...)
+	st := db.NewDB(db.VerifImpl, "c10-replay")
+	s := &state{c: make(tk.Content, len(r.Sel)), nodes: map[string][]byte{}}
+	for i, b := range r.Path {
+		res := step(st, s, b)
+		if res.msg != "" {
+			sig := ""
+			if res.isF1 {
+				sig = "F1"
+			}
+			ctx.Violation(sig, fmt.Sprintf("keys %v: from %v (after %d batches) batch %v: %s", tk.Names, s.c, i, b, res.msg), r)
+			return
+		}
+		res.next.path = append(append([]tk.Batch{}, s.path...), b)
+		s = res.next
+	}
 }
 
 type livePoint struct {
@@ -159,8 +374,8 @@ type livePoint struct {
 
 // runLive executes a sequence on one long-lived instance. Returns the failing
 // step index and observation, or -1.
-func runLive(store string, n int, steps []liveStep) (int, string, bool) {
-	st := tk.Open(store)
+func runLive(st db.DB, n int, steps []liveStep) (int, string, bool) {
+	db.VerifHandleRestore(st, nil)
 	t := trie.NewTrie(nil, common.Hasher, st)
 	model := make(tk.Content, n)
 	var committed []livePoint
@@ -173,7 +388,7 @@ func runLive(store string, n int, steps []liveStep) (int, string, bool) {
 			t.Root = append([]byte{}, p.root...)
 			model = p.c.Clone()
 			if err := tk.CheckReads(t, model); err != nil {
-				return i, "read after SetRoot: " + err.Error(), false
+				return i, "read after resetting Root: " + err.Error(), false
 			}
 			continue
 		}
@@ -183,10 +398,8 @@ func runLive(store string, n int, steps []liveStep) (int, string, bool) {
 			return i, "update: " + err.Error(), isF1
 		}
 		model = model.Apply(s.Batch)
-		if s.Commit {
-			if err := t.Commit(); err != nil {
-				return i, "commit: " + err.Error(), isF1
-			}
+		if err := t.Commit(); err != nil {
+			return i, "commit: " + err.Error(), isF1
 		}
 		if err := tk.CheckReads(t, model); err != nil {
 			return i, "read: " + err.Error(), isF1
@@ -194,9 +407,7 @@ func runLive(store string, n int, steps []liveStep) (int, string, bool) {
 		if ref := tk.RefRoot(model); !bytes.Equal(t.Root, ref) {
 			return i, fmt.Sprintf("root %x != reference %x of %v", t.Root, ref, model), isF1
 		}
-		if s.Commit {
-			committed = append(committed, livePoint{append([]byte{}, t.Root...), model.Clone()})
-		}
+		committed = append(committed, livePoint{append([]byte{}, t.Root...), model.Clone()})
 	}
 	for j, p := range committed {
 		tt := trie.NewTrie(p.root, common.Hasher, st)
@@ -207,158 +418,130 @@ func runLive(store string, n int, steps []liveStep) (int, string, bool) {
 	return -1, "", false
 }
 
+func runLiveAll(ctx *xplor.Ctx, cfg liveCfg) {
+	tk.Use(cfg.sel...)
+	n := len(cfg.sel)
+	lb := tk.Batches(n, cfg.maxk)
+	nw := runtime.GOMAXPROCS(0)
+	type job struct{ steps []liveStep }
+	jobs := make(chan job, 1024)
+	var wg sync.WaitGroup
+	var mu sync.Mutex
+	nF1 := 0
+	for w := 0; w < nw; w++ {
+		wg.Add(1)
+		st := db.NewDB(db.VerifImpl, fmt.Sprintf("c10-live-%d", w))
+		go func() {
+			defer wg.Done()
+			for j := range jobs {
+				if ctx.Expired() {
+					continue
+				}
+				ctx.Eval(1)
+				i, msg, isF1 := runLive(st, n, j.steps)
+				if i >= 0 {
+					sig := ""
+					if isF1 {
+						sig = "F1"
+					}
+					mu.Lock()
+					report := sig == "" || nF1 < 2
+					if sig != "" {
+						nF1++
+					}
+					mu.Unlock()
+					if report {
+						ctx.Violation(sig, fmt.Sprintf("keys %v: live step %d: %s", tk.Names, i, msg), replay{Mode: "live", Sel: cfg.sel, Steps: j.steps})
+					}
+					continue
+				}
+				ctx.Distinct(xplor.Hash("live", fmt.Sprint(j.steps)))
+			}
+		}()
+	}
+	// every sequence of exactly d steps (prefixes are checked as part of the longer runs:
+	// oracles are evaluated after every step); a reset needs an earlier commit
+	var steps []liveStep
+	var gen func(depth, ncommitted int)
+	gen = func(depth, ncommitted int) {
+		if depth == cfg.d {
+			jobs <- job{append([]liveStep{}, steps...)}
+			return
+		}
+		for _, b := range lb {
+			steps = append(steps, liveStep{Batch: b, Commit: true})
+			gen(depth+1, ncommitted+1)
+			steps = steps[:len(steps)-1]
+		}
+		if depth > 0 && depth+1 < cfg.d {
+			for r := 1; r <= ncommitted; r++ {
+				steps = append(steps, liveStep{SetRoot: r})
+				gen(depth+1, ncommitted)
+				steps = steps[:len(steps)-1]
+			}
+		}
+	}
+	gen(0, 0)
+	close(jobs)
+	wg.Wait()
+	if ctx.Expired() {
+		ctx.Incomplete("live: internal deadline")
+	}
+	ctx.Sample(map[string]interface{}{"mode": "live", "keys": append([]string{}, tk.Names...), "depth": cfg.d,
+		"example": []string{lb[len(lb)-1].String() + " commit", "setroot 1", lb[0].String() + " commit"}})
+}
+
 func run(ctx *xplor.Ctx) {
-	store := fmt.Sprintf("c10-%d", ctx.Shard)
-	defer db.VerifDrop(store)
 	if ctx.Replay != nil {
 		var r replay
 		if err := json.Unmarshal(ctx.Replay, &r); err != nil {
 			panic(err)
 		}
 		switch r.Mode {
-		case "fresh":
-			c := tk.ContentFromID(r.State, r.N)
-			if msg := stepFresh(store, c, r.Batch, nil); msg != "" {
-				sig := ""
-				if f1(c, r.Batch) {
-					sig = "F1"
-				}
-				ctx.Violation(sig, fmt.Sprintf("state %v batch %v: %s", c, r.Batch, msg), r)
-			}
+		case "bfs":
+			replayBFS(ctx, r)
 		case "live":
-			if i, msg, isF1 := runLive(store, r.N, r.Steps); i >= 0 {
+			tk.Use(r.Sel...)
+			st := db.NewDB(db.VerifImpl, "c10-replay")
+			if i, msg, isF1 := runLive(st, len(r.Sel), r.Steps); i >= 0 {
 				sig := ""
 				if isF1 {
 					sig = "F1"
 				}
-				ctx.Violation(sig, fmt.Sprintf("step %d: %s", i, msg), r)
+				ctx.Violation(sig, fmt.Sprintf("keys %v: live step %d: %s", tk.Names, i, msg), r)
 			}
 		}
 		return
 	}
-	p := tierParams(ctx.Tier)
-
-	// ---- mode A: every (content, batch) transition from a canonical store
-	batches := tk.Batches(p.freshN, p.freshK)
-	nstates := 1
-	for i := 0; i < p.freshN; i++ {
-		nstates *= 3
+	bcfgs, lcfg := tierCfg(ctx.Tier)
+	for i, c := range bcfgs {
+		runBFS(ctx, c, fmt.Sprintf("u%d", i+1))
 	}
-	roots := map[string]int{}
-	for id := 0; id < nstates; id++ {
-		c := tk.ContentFromID(id, p.freshN)
-		// injectivity of the reference root over all contents (every shard checks all; cheap)
-		r := string(tk.RefRoot(c))
-		if o, dup := roots[r]; dup {
-			ctx.Violation("", fmt.Sprintf("contents %v and %v have the same root", tk.ContentFromID(o, p.freshN), c), replay{Mode: "fresh", N: p.freshN, State: id})
-		}
-		roots[r] = id
-		if !ctx.Mine(id) {
-			continue
-		}
-		ctx.Count("fresh_states", 1)
-		canon := &canonical{}
-		for _, b := range batches {
-			if ctx.Expired() {
-				return
-			}
-			ctx.Eval(1)
-			if c.Apply(b).ID() != id {
-				ctx.Distinct(xplor.Hash("t", id, fmt.Sprint(b)))
-			}
-			msg := stepFresh(store, c, b, canon)
-			if f1(c, b) {
-				ctx.Count("f1_predicate_cases", 1)
-			}
-			if msg != "" {
-				sig := ""
-				if f1(c, b) {
-					sig = "F1"
-				}
-				if sig == "" || ctx.NViolations() < 3 {
-					ctx.Violation(sig, fmt.Sprintf("state %v batch %v: %s", c, b, msg), replay{Mode: "fresh", N: p.freshN, State: id, Batch: b})
-				} else {
-					ctx.Count("f1_observed", 1)
-				}
-			}
-		}
-	}
-	ctx.Max("max_fresh_batches", int64(len(batches)))
-	ctx.Sample(map[string]interface{}{"mode": "fresh", "state": tk.ContentFromID(nstates/2, p.freshN).String(), "batch": batches[len(batches)-1].String()})
-
-	// ---- mode B: sequences on one long-lived instance
-	lb := tk.Batches(p.liveN, p.liveK)
-	var steps []liveStep
-	var dfs func(depth int, ncommitted int)
-	seq := 0
-	dfs = func(depth, ncommitted int) {
-		if depth == p.liveD {
-			return
-		}
-		try := func(s liveStep, nc int) {
-			steps = append(steps, s)
-			defer func() { steps = steps[:len(steps)-1] }()
-			// shard on the first step
-			if depth == 0 {
-				seq++
-				if !ctx.Mine(seq) {
-					return
-				}
-			}
-			if ctx.Expired() {
-				return
-			}
-			ctx.Eval(1)
-			i, msg, isF1 := runLive(store, p.liveN, steps)
-			if i >= 0 {
-				sig := ""
-				if isF1 {
-					sig = "F1"
-				}
-				if sig == "" || ctx.NViolations() < 3 {
-					ctx.Violation(sig, fmt.Sprintf("live step %d: %s", i, msg), replay{Mode: "live", N: p.liveN, Steps: append([]liveStep{}, steps...)})
-				} else {
-					ctx.Count("f1_observed", 1)
-				}
-				return // do not extend a failed history
-			}
-			ctx.Distinct(xplor.Hash("live", fmt.Sprint(steps)))
-			dfs(depth+1, nc)
-		}
-		for _, b := range lb {
-			try(liveStep{Batch: b, Commit: true}, ncommitted+1)
-		}
-		for r := 1; r <= ncommitted; r++ {
-			if depth+1 < p.liveD {
-				try(liveStep{SetRoot: r}, ncommitted)
-			}
-		}
-	}
-	dfs(0, 0)
-	ctx.Sample(map[string]interface{}{"mode": "live", "steps": []string{lb[len(lb)-1].String() + " commit", "setroot 1", lb[0].String() + " commit"}})
+	runLiveAll(ctx, lcfg)
 }
 
 func main() {
 	xplor.Main(xplor.Check{
 		ID:    "C10",
-		Level: "exploration",
-		Rule: "mode fresh: every (content, batch) pair: content = each assignment of {absent,v1,v2} to the first n collision-prone 32-byte keys " +
-			"(differing first at bits 255,252,251,8,4,3,1,0), batch = every sorted set of <=k keys with value v1|v2|delete, applied by the real " +
-			"Trie.Update+Commit on a store holding exactly the canonical trie of the content; oracles: Get of every key = map model, root = independent " +
-			"reference root of the resulting content, fresh instance at the new root, previous root still readable, reference roots injective. " +
-			"mode live: every sequence of <=d steps (batch+commit | reset Root to an earlier committed root, as a reorganisation does) on one long-lived instance, " +
-			"same oracles after every step plus every committed root re-read from a fresh instance at the end. distinct_nontrivial = distinct (content,batch) transitions that change the content + distinct passing live histories.",
+		Level: "model_checking",
+		Rule: "explicit-state search of the real pkg/trie: state = (map content, root, exact bytes of every stored node reachable from the root), deduplicated by digest of those bytes; " +
+			"transition = one sorted batch (every set of <=k keys of the key set, each := v1 | v2 | delete) applied by a fresh Trie opened at the root with Update+Commit; explored breadth-first from the empty trie to a fixpoint. " +
+			"Key sets are 32-byte keys colliding on long prefixes (first differing bit 255,254,252,251,250,248 = two adjacent 4-level node batches at the bottom; 8,4,3,1,0 = top). " +
+			"Oracles per transition: root = independent reference root of the resulting content, Get of every key from a fresh instance = map model, previously committed root still readable when any stored node was rewritten. " +
+			"mode live: every sequence of d steps (batch+commit | reset Root to an earlier committed root) on one long-lived instance, same oracles after each step and every committed root re-read at the end. " +
+			"distinct_nontrivial = distinct content-changing transitions + distinct passing live histories.",
 		Assumptions: []string{
-			"sha256 collision freedom (same root => same reachable nodes), which justifies starting every transition from the canonical trie of a content",
-			"values are 32-byte hashes as produced by stateBuffer.export; deletions are the DefaultLeaf value",
-			"sequential use of one Trie instance (parallel subtree goroutines are explored separately by the SCHED part when enabled)",
+			"sha256 collision freedom",
+			"a fresh Trie instance reads nothing but the nodes reachable from its root (this is what makes the reachable-bytes digest a sound state key)",
+			"values are 32-byte hashes as produced by stateBuffer.export; deletions are the DefaultLeaf value; one Update per Commit, as the node does per block",
+			"goroutine interleavings inside one Update (parallel subtrees) run under the Go scheduler here, they are not enumerated",
 		},
-		Shards: func(tier string) int { return 16 },
+		Shards: func(tier string) int { return 1 },
 		Budget: func(tier string) time.Duration {
 			if tier == "thorough" {
-				return 20 * time.Minute
+				return 25 * time.Minute
 			}
-			return 4 * time.Minute
+			return 5 * time.Minute
 		},
 		Run: run,
 	})
